@@ -845,9 +845,8 @@ func (mgr *Manager) updateTagJob(name string, t tag, tagDetails map[string]query
 				mgr.streamsToConvert[converter.Name()].Or(t.Matches)
 			}
 			mgr.tags[name] = &t
-			if !(mgr.updatedStreamsDuringTaggingJob.IsZero() && mgr.resetStreamsDuringTaggingJob.IsZero() && mgr.addedStreamsDuringTaggingJob.IsZero()) {
-				mgr.invalidateTags(mgr.updatedStreamsDuringTaggingJob, mgr.resetStreamsDuringTaggingJob, mgr.addedStreamsDuringTaggingJob)
-			}
+			// always do this, it also inherits the uncertainty of referenced tags that were modified while the job was running
+			mgr.invalidateTags(mgr.updatedStreamsDuringTaggingJob, mgr.resetStreamsDuringTaggingJob, mgr.addedStreamsDuringTaggingJob)
 			if err := mgr.saveState(); err != nil {
 				log.Printf("updateTagJob failed, unable to save state: %q", err)
 			}
@@ -1301,6 +1300,7 @@ func (mgr *Manager) UpdateTag(name string, operation UpdateTagOperation) error {
 						}
 						newTag.Matches.Set(uint(s))
 						newTag.Uncertain.Set(uint(s))
+						mgr.resetStreamsDuringTaggingJob.Set(uint(s))
 						fmt.Fprintf(&b, "%d,", s)
 
 						for _, converter := range newTag.converters {
@@ -1327,6 +1327,7 @@ func (mgr *Manager) UpdateTag(name string, operation UpdateTagOperation) error {
 						}
 						newTag.Matches.Unset(uint(s))
 						newTag.Uncertain.Set(uint(s))
+						mgr.resetStreamsDuringTaggingJob.Set(uint(s))
 						// TODO: invalidate converter cache for this stream
 					}
 					b := strings.Builder{}
